@@ -63,12 +63,18 @@ def level_facts(K, sink_complete=None):
     out = [
         "%s in seen_level_entities and %s in batches and %s in batch_counts" % (L, L, L),
         # what reached the writer, followed by the pending batch, is the stream rows at the logged positions
-        "len(%s) + len(batches[%s]) == len(%s)" % (S, L, E),
+        ("len(%s) + len(batches[%s]) == len(%s)" % (S, L, E)) if sink_complete is None else
+        ("len(%s) + (0 if %s else len(batches[%s])) == len(%s)" % (S, sink_complete, L, E)),
         "all(%s[q] == %s[%s[q]] for q in range(len(%s)))" % (S, R, E, S),
-        "all(batches[%s][q] == %s[%s[len(%s) + q]] for q in range(len(batches[%s])))" % (L, R, E, S, L),
-        # the log is strictly increasing and within the consumed part of the stream
-        "all(%s[q] < %s[q + 1] for q in range(len(%s) - 1))" % (E, E, E),
-        "all(ghost_inE[%s][%s[q]] and ghost_posE[%s][%s[q]] == q for q in range(len(%s)))" % (L, E, L, E, E),
+        ("all(batches[%s][q] == %s[%s[len(%s) + q]] for q in range(len(batches[%s])))" % (L, R, E, S, L))
+        if sink_complete is None else
+        ("implies(not (%s), all(batches[%s][q] == %s[%s[len(%s) + q]] for q in range(len(batches[%s]))))"
+         % (sink_complete, L, R, E, S, L)),
+        # the log lists the written stream positions in stream order (order isomorphism position <-> output index)
+        "forall(lambda i, j: implies(ghost_inE[%s][i] and ghost_inE[%s][j] and i < j, "
+        "ghost_posE[%s][i] < ghost_posE[%s][j]), trigger=lambda i, j: marked('ord', li, i, j))" % (L, L, L, L),
+        "forall(lambda q: implies(0 <= q < len(%s), ghost_inE[%s][%s[q]] and ghost_posE[%s][%s[q]] == q), "
+        "trigger=lambda q: marked('lst', li, q))" % (E, L, E, L, E),
         "forall(lambda j: implies(ghost_inE[%s][j], P0 <= j < %s and 0 <= ghost_posE[%s][j] < len(%s) and "
         "%s[ghost_posE[%s][j]] == j), trigger=lambda j: ghost_inE[%s][j])" % (L, K, L, E, E, L, L),
         # seen keys <-> first position with that key, which was written
@@ -78,20 +84,18 @@ def level_facts(K, sink_complete=None):
         % (DD(L), L, L, L, KEY(L, "ghost_first[%s][key]" % L), L),
         # a written row is the first with its key (hence no two written rows share a key)
         "implies(%s, forall(lambda j: implies(ghost_inE[%s][j], %s in seen_level_entities[%s] and "
-        "ghost_first[%s][%s] == j), trigger=lambda j: ghost_inE[%s][j]))"
-        % (DD(L), L, KEY(L, "j"), L, L, KEY(L, "j"), L),
+        "ghost_first[%s][%s] == j), trigger=lambda j: marked('uniq', li, j)))"
+        % (DD(L), L, KEY(L, "j"), L, L, KEY(L, "j")),
         # every candidate row is represented by a written row with the same key, not later in the stream
         "implies(%s, forall(lambda j: implies(P0 <= j < %s and %s, %s in seen_level_entities[%s] and "
-        "ghost_first[%s][%s] <= j), trigger=lambda j: %s[j]))"
-        % (DD(L), K, CAND(L, "j"), KEY(L, "j"), L, L, KEY(L, "j"), R),
+        "ghost_first[%s][%s] <= j), trigger=lambda j: marked('repr', li, j)))"
+        % (DD(L), K, CAND(L, "j"), KEY(L, "j"), L, L, KEY(L, "j")),
         # higher levels hold retained PSMs only
         "forall(lambda j: implies(ghost_inE[%s][j], %s), trigger=lambda j: ghost_inE[%s][j])" % (L, CAND(L, "j"), L),
         # de-duplication off: every row is written at the PSM level
         "implies(not %s, forall(lambda j: implies(P0 <= j < %s, ghost_inE[%s][j]), "
         "trigger=lambda j: ghost_inE[%s][j]))" % (DD(L), K, L, L),
     ]
-    if sink_complete is not None:
-        out.append("implies(%s, len(batches[%s]) == 0 or len(%s) == len(%s))" % (sink_complete, L, S, E))
     return out
 
 
@@ -100,6 +104,7 @@ def for_levels(facts):
 
 
 SHAPE = [
+    "same(handles, H0)",
     "keys(batches) == levels",
     "P0 <= %s <= len(%s)" % (KK, R),
 ]
@@ -142,7 +147,7 @@ dedup = Contract(
     locals={"seen_level_entities": "dict[str,set[str]]", "batches": "dict[str,list[Row]]",
             "batch_counts": "dict[str,int]", "psm_hash": "str", "df": "list[Row]", "psm_count": "int"},
     ghosts=[HKG],
-    entry_ghost=["let P0 = sorted_file_iterator.pos"],
+    entry_ghost=["let P0 = sorted_file_iterator.pos", "let H0 = handles"],
     assumes=_ASSUMES,
     ghost_at=[
         {"after": "psm_hash = str(", "do": ["assert psm_hash == HK(data_row, level_hash_columns[level])"]},
@@ -151,14 +156,16 @@ dedup = Contract(
             "set ghost_posE[level][%s] = len(ghost_em[level])" % KK,
             "set ghost_em[level] = ghost_em[level] + [%s]" % KK,
             "set ghost_inE[level][%s] = True" % KK,
+            "assert len(ghost_em[level]) >= 1 and ghost_em[level][len(ghost_em[level]) - 1] == %s" % KK,
+            "assert ghost_posE[level][%s] == len(ghost_em[level]) - 1 and ghost_inE[level][%s]" % (KK, KK),
         ]},
     ],
     loops={
         0: Loop(invariant=SHAPE + for_levels(level_facts(KK))),
-        1: Loop(invariant=SHAPE[:1] + ["P0 <= %s < len(%s)" % (KK, R), "data_row == %s[%s]" % (R, KK),
+        1: Loop(invariant=SHAPE[:2] + ["P0 <= %s < len(%s)" % (KK, R), "data_row == %s[%s]" % (R, KK),
                                        "implies(_k1 > 0, ghost_inE['psms'][%s])" % KK]
                 + for_levels(level_facts(_INNER_K))),
-        2: Loop(invariant=SHAPE[:1] + for_levels(level_facts("len(%s)" % R, sink_complete="li < _k2"))),
+        2: Loop(invariant=SHAPE[:2] + for_levels(level_facts("len(%s)" % R, sink_complete="li < _k2"))),
     },
     ensures=[
         # the whole stream was consumed and every level's writer holds exactly the logged rows, in stream order
@@ -177,5 +184,52 @@ records = Contract(
     notes="assumed: pandas DataFrame.from_records + rename; one frame row per record, in order",
 )
 
-CONTRACTS = [records, dedup]
+levels_block = Contract(
+    target="mokapot.confidence.assign_confidence#levels",
+    block={"start": "level = 'psms'", "end": "if do_rollup:"},
+    free={"do_rollup": "bool", "curr_psms.level_columns": "list[str]", "curr_psms.spectrum_columns": "list[str]"},
+    locals={"levels": "list[str]", "level_hash_columns": "dict[str,list[str]]", "extra_output_columns": "list[str]",
+            "level": "str", "level_columns": "list[str]"},
+    abstract_ok=["level_data_path"],
+    loops={0: Loop(invariant=[
+        "len(levels) == 1 + _k0 and levels[0] == 'psms'",
+        "all(levels[li] in level_hash_columns for li in range(len(levels)))",
+        "all(levels[1 + i] == level_columns[i].lower() + 's' for i in range(_k0))",
+    ])},
+    ensures=[
+        # what the de-duplication block assumes about the level list: "psms" first, one level per level column
+        "len(levels) >= 1 and levels[0] == 'psms'",
+        "len(levels) == 1 + (len(curr_psms.level_columns) if do_rollup else 0)",
+        "all(levels[li] in level_hash_columns for li in range(len(levels)))",
+        "implies(do_rollup, all(levels[1 + i] == curr_psms.level_columns[i].lower() + 's' "
+        "for i in range(len(curr_psms.level_columns))))",
+    ],
+)
+
+CONTRACTS = [records, dedup, levels_block]
 BOUNDED = {"module": "harness.c03"}
+
+MUTANTS = [
+    {"name": "seen-test-inverted", "target": "mokapot.confidence.assign_confidence#dedup",
+     "find": "if psm_hash in seen_level_entities[level]:", "replace": "if psm_hash not in seen_level_entities[level]:"},
+    {"name": "key-never-recorded", "target": "mokapot.confidence.assign_confidence#dedup",
+     "find": "                        seen_level_entities[level].add(psm_hash)\n", "replace": ""},
+    {"name": "losing-psm-still-rolled-up", "target": "mokapot.confidence.assign_confidence#dedup",
+     "find": "                            if level == \"psms\":\n                                break\n",
+     "replace": ""},
+    {"name": "flushed-batch-kept", "target": "mokapot.confidence.assign_confidence#dedup",
+     "find": "                        batches[level] = []\n", "replace": ""},
+    {"name": "psm-hash-columns-for-every-level", "target": "mokapot.confidence.assign_confidence#dedup",
+     "find": "for col in level_hash_columns[level]", "replace": "for col in level_hash_columns[\"psms\"]"},
+    {"name": "rollup-levels-not-deduplicated-when-switch-off", "target": "mokapot.confidence.assign_confidence#dedup",
+     "find": "if level != \"psms\" or deduplication:", "replace": "if deduplication:"},
+    {"name": "row-appended-twice", "target": "mokapot.confidence.assign_confidence#dedup",
+     "find": "                    batches[level].append(data_row)\n",
+     "replace": "                    batches[level].append(data_row)\n                    batches[level].append(data_row)\n"},
+    {"name": "psms-level-missing", "target": "mokapot.confidence.assign_confidence#levels",
+     "find": "    levels = [level]\n", "replace": "    levels = []\n"},
+    {"name": "rollup-level-without-hash-columns", "target": "mokapot.confidence.assign_confidence#levels",
+     "find": "            level_hash_columns[level] = [level_column]\n", "replace": ""},
+    {"name": "dedup-switch-ignored", "target": "mokapot.confidence.assign_confidence#dedup",
+     "find": "if level != \"psms\" or deduplication:", "replace": "if True:"},
+]
